@@ -31,6 +31,8 @@ func checkC12(r *Run) {
 	c12Arity(r, f)
 	c12AutoSupply(r, f)
 	c12Results(r, f)
+	r.Rule("R7", "a non-nil trailing error result fails the render: the call site inspects the last result for an error and returns before the first result is used (also in the chained-call branch)", 1)
+	reflectResultRuleAs(r, "R7")
 }
 
 // argsAliases: node.Arguments and locals assigned once from it.
